@@ -344,6 +344,12 @@ def csrf_suite(ctx, env):
     nseq = 60 if ctx.quick() else 1500
     for si in range(nseq):
         cookies = ['ck%d-%d' % (si, i) + 'x' * rng.randint(0, 3) for i in range(2)]
+        if si % 2:
+            # cookies as long as the real ones (secrets.token_urlsafe(32): 43 characters) that differ only near the END: the
+            # whole cookie takes part in the signature, not a prefix of it
+            stem = ''.join(rng.choice('abcdefghijklmnopqrstuvwxyzABCDEFGHIJKLMNOPQRSTUVWXYZ0123456789-_') for _ in range(43))
+            cut = rng.choice([32, 36, 40, 42])
+            cookies = [stem, stem[:cut] + ''.join('Z' if ch != 'Z' else 'Y' for ch in stem[cut:])]
         issued = []
         calls = []
         for _ in range(rng.randint(3, 12)):
